@@ -368,7 +368,13 @@ def check(case, log):
         if en is None or en[0] > wseq:
           fail("caller-resumed-before-subtask-ended", "%s resumed at %s although its sub-task %s had not ended" % (tid, wtime, stid))
           continue
-        if ret == "end":
+        if en[3] == "uncaught":
+          # the sub-task let the exception of its own sub-task pass: that is what its caller must get
+          lastval = ix.steps[stid][-1][4]
+          want = lastval
+          if isinstance(lastval, dict) and lastval.get("exc", [None])[0] == "StopIteration":
+            want = {"exc": ["RuntimeError", "generator raised StopIteration"]}   # PEP 479 inside the sub-task
+        elif ret == "end":
           want = None
         elif "raise" in ret:
           want = {"exc": ["SubError", "sub:" + stid]}
@@ -390,9 +396,12 @@ def check(case, log):
   # a sub-task's value / exception reaches exactly its caller, once
   for stid, who in tokens.items():
     stid = stid[4:] if stid.startswith("sub:") else stid
-    caller = stid.rsplit("/", 1)[0]
-    if who != [caller]:
-      fail("subtask-result-misdelivered", "the result of %s was received by %r instead of exactly once by %s" % (stid, who, caller))
+    want_who = [stid.rsplit("/", 1)[0]]
+    # an exception that a caller does not catch travels on to that caller's caller
+    while "/" in want_who[-1] and ix.ends.get(want_who[-1], (0, 0, 0, None))[3] == "uncaught":
+      want_who.append(want_who[-1].rsplit("/", 1)[0])
+    if sorted(who) != sorted(want_who):
+      fail("subtask-result-misdelivered", "the result of %s was received by %r instead of exactly once by %r" % (stid, who, want_who))
   # every byte handed out by a socket reached a Recv step
   for (q, s, t, h) in ix.srecv:
     if q not in srecv_claimed:
@@ -623,10 +632,12 @@ def raisers(log):
   return out
 
 
-def twin(case):
-  """The same program set where every task that raises simply ends there instead."""
+def twin(case, rs):
+  """The same program set where every task of `rs` (those that raised) simply ends there instead."""
   c = copy.deepcopy(case)
-  for t in c.get("tasks", []):
+  for i, t in enumerate(c.get("tasks", [])):
+    if "t%d" % i not in rs:
+      continue
     prog = []
     for op in t.get("prog", []):
       if op.get("op") == "raise":
